@@ -1,9 +1,9 @@
 SPECIFICATION Spec
 CONSTANTS
-  Scenario = "mio8"
+  Scenario = "nkstream"
   N = 2
   Cap = 16
-  Kinds <- KindsNone
+  Kinds <- KindsDV
   GenK = 1
 VIEW View
 INVARIANT Inv_NoLostWake
